@@ -18,13 +18,13 @@ CLAIMED = {
    text="Model checking, stateless shape: for every cell of depths 0..10 (quick) / 0..12 (thorough) and for all border/corner class cells (plus their neighbours) of depths up to 29, neighbours(h) (with and without centre), neighbour(h, dir) for the 9 directions and the symmetry of the relation are compared with the integer lattice adjacency model (cells sharing a canonical vertex; label = which vertices are shared). Exact oracle; out-of-range hashes must panic at every depth.",
    note="Trusted: lattice adjacency model R2 (exact seam identification), self-checked for symmetry and the 8/7/6 neighbour counts at depths 0..3."),
  "C05": dict(tech=S, ref="4/C05",
-   text="Model checking, stateless shape with a witness oracle: every combination (variant approx / flat / custom, depth 0..3 quick / 0..5 thorough, delta_depth 1..2/3, centre = every node of the 2^-1 / 2^-2 plane lattice + poles, seam points, turned longitudes, generic points; radius = 18 fixed radii from 1e-9 to > pi plus 7/11 factors around every start-depth limit k <= depth+3, the limits being recovered from the public API by bisection) is executed (in two build profiles: release, and release with debug assertions + overflow checks); for each query EVERY cell of the depth is a candidate: a cell with one of its 81 lattice points (or the cone centre strictly inside it) inside the cone by a 1e-9 margin must be covered. Deep tier (depths 8..29): witnesses are points of the cone hashed at the query depth. Misses matching the listed known finding KF-1 are reported as KNOWN-FINDING only.",
+   text="Model checking, stateless shape with a witness oracle: every combination (variant approx / flat / custom, depth 0..3 quick / 0..5 thorough, delta_depth 1..2/3, centre = every node of the 2^-1 / 2^-2 plane lattice + poles, seam points, turned longitudes, generic points; radius = 18 fixed radii from 1e-9 to > pi plus 7/11 factors around every start-depth limit k <= depth+3, the limits being recovered from the public API by bisection) is executed (in two build profiles: release, and release with debug assertions + overflow checks); for each query EVERY cell of the depth is a candidate: a cell with one of its 81 lattice points (or the cone centre strictly inside it) inside the cone by a 1e-9 margin must be covered. Deep tier (depths 8..29): witnesses are points of the cone hashed at the query depth.",
    note="Trusted: R1/R2, the witness construction (sound: it only demands cells that contain a point of the cone), C01 for the deep tier. Cone parameters between alphabet points are outside the bound."),
  "C06": dict(tech=S, ref="4/C06",
    text="Model checking, stateless shape: the same query alphabet and build profiles as C05; every returned entry is checked: a cell flagged full has all its 81 lattice points (vertices and edge points included) within radius + 1e-9; every cell centre is within radius + 2 x (reference largest centre-to-vertex distance of its depth); radius >= pi gives exactly the 12 full base cells; no four full siblings; well-formed.",
    note="Trusted: R1/R2 and the exhaustively computed reference cell sizes (depth <= 8; 1.07/nside beyond)."),
  "C16": dict(tech=S, ref="4/C16",
-   text="Model checking, stateless shape: claim 1 on all cells of depth <= 7 / 9 and border-class cells to depth 29 (true centre-to-farthest-vertex distance from R1/R2); claim 2 on ~110 positions x 8 radii x depths 0..4 / 0..6 against EVERY cell whose centre is within the radius, for the scalar and both array forms; claim 3: the 30 limits recovered by bisection are strictly decreasing, best_starting_depth equals 'deepest limit exceeding r' on 12 factors x 30 limits and refuses exactly when has_best_starting_depth says so, and for the characteristic points of the border-class cells of every depth x radii just below each limit, 320 points of the cone lie in the cell of the centre (the subject's own hash) or its 8 lattice neighbours. Containment failures matching KF-1 are reported as KNOWN-FINDING only.",
+   text="Model checking, stateless shape: claim 1 on all cells of depth <= 7 / 9 and border-class cells to depth 29 (true centre-to-farthest-vertex distance from R1/R2); claim 2 on ~110 positions x 8 radii x depths 0..4 / 0..6 against EVERY cell whose centre is within the radius, for the scalar and both array forms; claim 3: the 30 limits recovered by bisection are strictly decreasing, best_starting_depth equals 'deepest limit exceeding r' on 12 factors x 30 limits and refuses exactly when has_best_starting_depth says so, and for the characteristic points of the border-class cells of every depth x radii just below each limit, 320 points of the cone lie in the cell of the centre (the subject's own hash) or its 8 lattice neighbours.",
    note="Trusted: R1/R2; 1e-9 relative + 2e-15 absolute slack (positions are known to an ulp of 2 pi). Claim 1 is checked at the cell centre."),
  "C07": dict(tech=E, ref="4/C07",
    text="Model checking, explicit-state shape: states are (depth_max, entry list) values; the initial frontier is the universe of ALL valid MOCs (canonical and unpacked strata, every depth_max) of bounded tree shapes (complete depth-1 trees; depth-2/3/4 trees subdividing the first or last descendant chain; leaf base cells 0, 1/5/11) plus degenerate shapes at depth_max 8/16/29; transitions apply the real not/and/or/xor: layer 1 = every state under not and ALL ordered pairs under and/or/xor, further layers feed new result states back (breadth-first, visited set) until the fix-point or the stated layer bound. Every transition is compared with a range-based set model (map equality, depth_max = max) and, for canonical operands, with the independently computed canonical packed form.",
@@ -45,7 +45,7 @@ CLAIMED = {
    text="Model checking, stateless shape: every (polygon, depth 0..6 / 0..9, approx / exact mode) with polygons = regular n-gons (convex), star-shaped variants, thin triangles and kites in every cyclic vertex order, both windings, 2-3 rotations, 7 circumradii 1e-4..0.79 around 15 / 22 centres (lon ~ 0 / 2pi crossings, seams, transition parallels, polar caps short of the poles): result well formed; cell of every vertex covered; every cell flagged full of a convex polygon has its 4 vertices and centre inside (orientation-anchored great-circle test, 1e-9 margin); tightness for circumradius < 0.3; Polygon::contains against the geometric definition on 326 probes per convex polygon (1e-7 margin from the edge circles).",
    note="Trusted: R1/R2/R6. No no-miss claim for polygons; polygons reaching a pole and non star-shaped ones are excluded as in the statement."),
  "C13": dict(tech=S, ref="4/C13",
-   text="Model checking, stateless shape: every (depth 0..3 / 0..5, delta_depth 0..1 / 0..2, centre of the cone alphabet incl. poles and seams, semi-major axis from 8 fixed values + 5 factors around each start-depth limit, b/a in {1, 0.5, 0.1}, 4 position angles): well formed, centre cell covered, every cell centre within a + 2 x reference cell size, circular case = the C05 witness oracle over EVERY cell of the depth, a >= pi/2 rejected. Misses matching KF-1 are reported as KNOWN-FINDING only.",
+   text="Model checking, stateless shape: every (depth 0..3 / 0..5, delta_depth 0..1 / 0..2, centre of the cone alphabet incl. poles and seams, semi-major axis from 8 fixed values + 5 factors around each start-depth limit, b/a in {1, 0.5, 0.1}, 4 position angles): well formed, centre cell covered, every cell centre within a + 2 x reference cell size, circular case = the C05 witness oracle over EVERY cell of the depth, a >= pi/2 rejected.",
    note="Trusted: as C05. No no-miss claim for eccentric ellipses (the property makes none)."),
  "C14": dict(tech=S, ref="4/C14",
    text="Model checking, stateless shape: every cell of depths 0..3 / 0..5 x delta_depth 1..4 / 1..6 and border-class cells of depths to 28 x delta_depth 1..3 (incl. depth + delta = 29), through Layer methods and free functions: internal_edge equals the exact closed walk S->E->N->W of the lattice model, internal_edge_sorted its sorted form, 4 corner helpers x 2 forms, 4 side helpers x 3 forms; external_edge = the set of deeper cells outside and adjacent (lattice adjacency), no duplicates, sorted variant; external_edge_struct files each cell under the side (shares 2 canonical vertices with it) or corner (shares only that vertex) it faces.",
@@ -66,6 +66,33 @@ CLAIMED = {
    text="Model checking, interleaving shape. Engine (a): 2-3 real threads execute the real get_or_create (Layer table, C2V table directly and through largest_center_to_vertex_distance, first and second use, same and different depths) under a cooperative scheduler at the cfg(cdshealpix_verif) hook points; ALL scheduling choices are explored depth-first (unbounded preemptions for 2 threads x 1 call, bound 1-3 otherwise; a fresh process per schedule, each run on 4 (quick) / 30 (thorough) depths); per schedule: construction counter = 1, identical object for all threads, results through the table = single-threaded reference, no panic, no deadlock, and a vector-clock happens-before monitor (edges: program order + Once release/acquire only) reports any slot read not ordered with the slot write. Engine (b): a stateright model whose per-thread program is generated from the hook sequence RECORDED on the real code, with the slot store split in two (torn observation); always-properties checked over all states; every maximal trace (projected on scheduler decisions) is replayed on the implementation and must produce the same event sequence and counters; for 2 threads x 1 call the number of model traces equals the number of schedules explored by engine (a).",
    note="Trusted: hook placement (scheduling points = accesses to the slot, Once entry/exit, constructor entry/exit); sequential consistency between points; std::sync::Once modelled as blocking while another thread is inside the closure. Weak-memory effects beyond the Once edges and > 3 threads are outside the bound."),
 }
+
+SEQ = " Operation sequences: ALL ordered pairs of a call alphabet built from one small value set used in every argument role (and all ordered triples / quadruples of sub-alphabets) are executed as one history on one thread; every result must be bit-identical to the same call made alone in a fresh thread (history independence: memos, caches, scratch state). A final free-running 8-thread stress over the same alphabet is a labelled, non-exhaustive corroboration only."
+ADDED = {
+ "C01": " Later additions: Fibonacci-lattice generic positions." + SEQ,
+ "C02": SEQ,
+ "C03": " Later additions: vertices_map on all 16 direction sets, path_along_cell_side on every (from, to, include) combination, carry-chain cells (coordinates 2^k-1, 2^k, 10 1..1 for every k) at every depth." + SEQ,
+ "C04": " Later additions: carry-chain cells (full cross product of the coordinates 2^k-1, 2^k, 10 1..1 in every base cell) and 32 spread interior cells per base cell at every depth." + SEQ,
+ "C05": " Later additions: radius-relative centres, centres at the narrowest cells of the start depth (exhaustive search), deep-large (1e4..1e5 cells) and deep-huge (radius / cell > 5e4, ~1e6 cells) strata. The former known finding KF-1 is repaired (fix f1d7abd) and no longer consulted." + SEQ,
+ "C06": " Later additions: the deep-large / deep-huge / narrowest-cell strata of C05." + SEQ,
+ "C07": " Later additions: operand SIZE SWEEP (every n = 1..520 / 4200 for 7 operand shapes), merge-cascade operands (every cascade length 1..29), coverage-sized operands." + SEQ,
+ "C08": " Later additions: the size sweep, merge cascades and coverage-sized operands of C07 with mixed flags." + SEQ,
+ "C09": " Later additions: size sweep and merge cascades through all views." + SEQ,
+ "C10": " Later additions: EVERY polar ring (last index, first of the next, one generic index) of depths 12..18 (quick) / 14..29 (thorough); carry-chain NESTED cells." + SEQ,
+ "C11": " Later additions: nside SWEEP, every nside 1..40000 (quick) / 2^20 (thorough) on 18 key cells + the six public layout constants (n_hash, n_isolatitude_rings, first_hash_*) against R3." + SEQ,
+ "C12": " Later additions: deep polygons (depths to 29), longitude representations (+-2pi, +6pi, unwrapped across lon = 0)." + SEQ,
+ "C13": " Later additions: deep tier (depths 9..29, ellipses 0.3..31 cells across), deep-large tier (thousands of cells across). KF-1 repaired (fix f1d7abd)." + SEQ,
+ "C14": " Later additions: delta_depth 5, 8, 9, 13, 17 and a sweep of every delta_depth 4..12 / 16; carry-chain cells; the two public direction helpers of lib.rs checked directly and exhaustively on every border cell x outward neighbour." + SEQ,
+ "C15": " Later additions: bulk pushes (~9000), one-tile sets, re-push SIZE SWEEP (a whole tile then every n = 1..340 / 4200 of its cells again), merge-cascade sequences (every cascade length 1..29).",
+ "C16": " Later additions: claim-2 radii up to pi; claim 3 at the NARROWEST cells of depths 0..6 / 0..8 located by exhaustive search; carry-chain cells. KF-1 repaired (fix f1d7abd)." + SEQ,
+ "C17": SEQ,
+ "C18": SEQ,
+ "C19": " Later additions: weighted mean checked for every position (grid coordinates from the reference projection), carry-chain cells." + SEQ,
+ "C20": " Later additions: mutual-exclusion probe (a thread held inside the constructor, a free-running second caller must block).",
+}
+
+for k, v in ADDED.items():
+    CLAIMED[k]['text'] += v
 props = [json.loads(l) for l in open(os.path.join(V, "properties.jsonl"))]
 m = {
  "version": 1,
@@ -87,7 +114,7 @@ m = {
  ],
  "checks": [],
  "not_applicable": [],
- "notes": "Driver: ./check <ID> --tier quick|thorough; ./check <ID> --replay <file>. Known findings: known_findings.json (never written at run time).",
+ "notes": "Driver: ./check <ID> --tier quick|thorough; ./check <ID> --replay <file>. Known finding KF-2 (C11) and the list of repaired defects: known_findings.json (never written at run time).",
 }
 for p in props:
     i = p["id"]
